@@ -109,5 +109,4 @@ fn c14_transport_multibyte() {
         compare_transports(text);
         k += 1;
     }
-    compare_transports(text);
 }
